@@ -27,4 +27,13 @@ for cl in (0, 1, 3, 40):
                         "defs": ["-DCL=%d" % max(cl, 1), "-DZMAX=%d" % (1 if cl == 0 else 2)], "cbmc": ["--max-field-sensitivity-array-size", "300"], "unwind": 45, "timeout": 900, "tier": "quick" if cl == 0 else "thorough", "mem_gb": 24,
                         "title": "SM2Cipher DER: from_der(to_der(C)) = C for coordinates with 0..2 leading zero bytes, dry run = written",
                         "bounds": "C2 of %d bytes; x, y with exactly 0..2 leading zero bytes, first significant byte 0x5a or 0x85, other bytes arbitrary (case split)" % cl})
+for nm, entry, ti, df in (("ecdh_agree", "h_ecdh_agree", "sm2_ecdh: both parties obtain the coordinates of [dA dB]G", []),
+                      ("ecdh_share_checked.prefix04", "h_ecdh_share_checked", "sm2_ecdh uses a peer share only if it is the 65-byte uncompressed encoding of a finite curve point; output = [d]P", ["-DPREFIX=4", "-DWITNESS_ACCEPT"]),
+                      ("ecdh_share_checked.prefix00", "h_ecdh_share_checked", "sm2_ecdh refuses the encoding of the point at infinity", ["-DPREFIX=0"]),
+                      ("ecdh_share_checked.prefix06", "h_ecdh_share_checked", "sm2_ecdh refuses an unknown prefix", ["-DPREFIX=6"])):
+    OBLIGATIONS.append({"id": "C02-c.%s.q13" % nm, "harness": "harness/C02/ecdh.c", "entry": entry, "units": ["sm2_exch.c", "sm2_z256.c"],
+                        "models": ["models/sm2_small.c", "models/sm2_small_codec.c"], "remove": {"sm2_z256.c": SMALL_REMOVE + Z256_IO + ["sm2_z256_point_from_bytes"]},
+                        "defs": ["-DSMALL_Q=13"] + df, "unwind": 70, "timeout": 600, "title": ti,
+                        "bounds": "group order 13 (M4), all private keys and coordinate tables; uncompressed shares (compressed ones need the field square root)",
+                        "stubs": ["M4 small-field group model incl. affine import"]})
 NOTE = "C02: SM2 encryption and ECDH."
